@@ -28,6 +28,10 @@ inductive Op where
   | ls
   | trk (name : Nat)
   | trks
+  /-- the process is killed inside `op`, immediately before its `n`-th (0-based) I/O event of kind `kind`
+  (hook H1: 0 = entry write, 2 = index tmp write, 3 = index rename, 7 = io_uring submission); `fd` = FD
+  backend.  If `op` performs no such event it completes normally. -/
+  | crashAt (kind n : Nat) (fd : Bool) (op : Op)
   deriving Repr
 
 def withInst (p : Proc) (f : Inst → Proc × Inst × Out) : Proc × Out :=
@@ -40,7 +44,68 @@ def withInst (p : Proc) (f : Inst → Proc × Inst × Out) : Proc × Out :=
 def topicSize (i : Inst) (t : Topic) : Nat :=
   ((i.reader t).chain.map (·.used)).sum + ((i.writers.get? t).map (·.off)).getD 0
 
+/-- the process dies: nothing in memory survives; the index file holds `idx` -/
+def dieWith (p : Proc) (idx : AMap Topic Pos) : Proc :=
+  match p.inst with
+  | none => { p with trk := {}, lastMillis := 0 }
+  | some i =>
+    let d := (p.dirs.get? i.dir).getD {}
+    { p with dirs := p.dirs.insert i.dir { d with index := idx }, inst := none, trk := {}, lastMillis := 0 }
+
+/-- disk after a batch append killed at its `n`-th entry write: sequential path (mmap backend): the first
+`n` entries are written; io_uring path (`fd`): the process looks at the completions only after every write
+was performed, so all entries are written.  `none`: the batch performs no such event. -/
+def crashBatchDisk (c : Cfg) (p : Proc) (i : Inst) (t : Topic) (batch : List Pay) (kind n : Nat) (fd : Bool) : Option Proc :=
+  let i := markClean i t false
+  let (p, i, w) := getOrCreateWriter c p i t
+  if batch.length > c.cap then none
+  else if (batch.map fun x => c.metaSz + x.len).sum > c.maxBatchBytes then none
+  else if batch.isEmpty then none
+  else if t.long then none
+  else if w.batching then none
+  else
+    match planBatch c t batch p i w.blk w.off [] with
+    | (_, _, _, none) => none
+    | (p, _, _, some (_, plan)) =>
+      if kind = 7 then (if fd ∧ n = 0 then some p else none)
+      else if kind = 0 ∧ n < plan.length then
+        let done := if fd then plan else plan.take n
+        some { p with files := done.foldl (fun fs (x : Blk × Nat × Pay) => writeCell c fs x.1 x.2.1 t x.2.2) p.files }
+      else none
+
+def applyIdx (m : AMap Topic Pos) (l : List (Topic × Pos)) : AMap Topic Pos := l.foldl (fun m x => m.insert x.1 x.2) m
+
 def step (c : Cfg) (p : Proc) : Op → Proc × Out
+  | .crashAt kind n fd op =>
+    let p0 : Proc := match p.inst with
+      | some i => { p with inst := some { i with idxLog := [] } }
+      | none => p
+    let normal := step c p0 op
+    match p0.inst with
+    | none => normal
+    | some i =>
+      let idx0 := i.index
+      -- entry writes / submission
+      let diskW : Option Proc :=
+        match op with
+        | .append t pay =>
+          if kind = 0 ∧ n = 0 then
+            (match appendForTopic c p0 i t pay (some ⟨0, 0⟩) with
+             | (p1, _, .err .other) => some p1
+             | _ => none)
+          else none
+        | .batch t ps => crashBatchDisk c p0 i t ps kind n fd
+        | _ => none
+      match diskW with
+      | some p1 => (dieWith { p1 with inst := some i } idx0, .crashed)
+      | none =>
+        -- index persists: the first `n` persists of the operation reached the index file
+        let log := match normal.1.inst with
+          | some i' => i'.idxLog
+          | none => []
+        if (kind = 2 ∨ kind = 3) ∧ n < log.length then
+          (dieWith normal.1 (applyIdx idx0 (log.take n)), .crashed)
+        else normal
   | .clock ms => ({ p with sysClock := ms }, .ok)
   | .open_ mode => (openInst c (closeInst p) 0 mode, .ok)
   | .close => (closeInst p, .ok)
